@@ -34,6 +34,11 @@ def literal_program(rng):
             "const r%d = require(%s + x, %s);" % (rng.randrange(99), v, v),
             "const r%d = require(...[%s]);" % (rng.randrange(99), v),
             "const e%d = new RegExp(%s, %s);" % (rng.randrange(99), v, v),
+            # the two exclusions are require(<literal>..) as a CALL and new RegExp(<literal>..) as a NEW: the other pairings are not excluded
+            "const ec%d = RegExp(%s, %s);" % (rng.randrange(99), v, v),
+            "const nr%d = new require(%s);" % (rng.randrange(99), v),
+            "const er%d = RegExp(42, %s) + require.resolve(%s);" % (rng.randrange(99), v, v),
+            "const rx%d = o.require(%s) || new o.RegExp(%s);" % (rng.randrange(99), v, v),
             "const e%d = new RegExp(x, %s);" % (rng.randrange(99), v),
             "const e%d = new RegExp;" % rng.randrange(99),
             "foo(%s);" % v,
